@@ -142,6 +142,14 @@ type realResult struct {
 	args2       []string
 	usage2      bool
 	cfg2        Cfg
+
+	// after a retry (first Parse returned an error): state before (0) and after (2) the retry
+	retry      bool
+	retryPanic string
+	retryErr   error
+	args0      []string
+	usage0     bool
+	cfg0       Cfg
 }
 
 // secondVector is handed to a second Parse call on a FlagSet whose first Parse returned nil.
@@ -150,6 +158,38 @@ type realResult struct {
 // by the second vector, which has no flags: Args() = its tail, nothing else changes.)
 var secondVector = []string{"--", "second", "-x"}
 var secondArgs = secondVector[1:]
+
+// retryVectors: after a first Parse that returned an ERROR, Parse is called again with one of
+// these (chosen by the first vector). Whether a failed Parse may be retried is the library's
+// choice: when the retry is refused too, it only must not panic and (for the valid vectors)
+// must leave Args(), ShowUsage() and the fields as they were; when it is accepted, the result
+// must be exactly what the grammar says for the retry vector alone on a fresh struct - nothing
+// of the rejected first vector may survive. The last vector is invalid and must never be
+// accepted. All of them mean the same for every workload struct (help is always defined).
+var retryVectors = [4][]string{
+	{"--", "second", "-x"},
+	{"--help=false", "second", "-x"},
+	{"-help", "--", "-y"},
+	{"-no-such-flag-zz=1"},
+}
+
+const retryInvalid = 3
+
+func retryIndex(argv []string) int {
+	h := len(argv)
+	for _, t := range argv {
+		h = h*31 + len(t)
+	}
+	return h & 3
+}
+
+// what the reference parser says for the retry vectors alone (Cfg)
+var retryModels = func() (m [4]outcome) {
+	for i, v := range retryVectors {
+		m[i] = refParse(v, files{})
+	}
+	return m
+}()
 
 func runReal(argv []string) (r realResult) {
 	defer func() {
@@ -163,6 +203,17 @@ func runReal(argv []string) (r realResult) {
 		return r
 	}
 	if r.err = fs.Parse(argv); r.err != nil {
+		r.args0, r.usage0, r.cfg0 = fs.Args(), fs.ShowUsage(), r.cfg
+		func() {
+			defer func() {
+				if p := recover(); p != nil {
+					r.retryPanic = fmt.Sprint(p)
+				}
+			}()
+			r.retry = true
+			r.retryErr = fs.Parse(append([]string(nil), retryVectors[retryIndex(argv)]...))
+		}()
+		r.args2, r.usage2, r.cfg2 = fs.Args(), fs.ShowUsage(), r.cfg
 		return r
 	}
 	r.args = fs.Args()
@@ -256,6 +307,9 @@ func judge(op *outcome, rp *realResult, argvModel, argvReal []string) (kind, exp
 	case o.class == "" && r.err != nil:
 		return "rejected-good", "nil; " + describe(o), "error: " + r.err.Error()
 	case o.class != "":
+		if r.retry {
+			return judgeRetry(&r, argvReal)
+		}
 		return "", "", ""
 	case !sameStrings(o.args, r.args):
 		return "args-differ", fmt.Sprintf("Args()=%q", o.args), fmt.Sprintf("Args()=%q", r.args)
@@ -284,6 +338,41 @@ func judge(op *outcome, rp *realResult, argvModel, argvReal []string) (kind, exp
 		if f := diffCfg(&o.cfg, &r.cfg2); f != "" {
 			return "second-parse:field-differ:" + f, what + "cfg=" + showCfg(&o.cfg), "cfg=" + showCfg(&r.cfg2)
 		}
+	}
+	return "", "", ""
+}
+
+// judgeRetry: the second Parse after a first Parse that returned an error (see retryVectors).
+func judgeRetry(r *realResult, argv []string) (kind, expected, observed string) {
+	ri := retryIndex(argv)
+	what := fmt.Sprintf("after Parse returned an error, Parse(%q) ", retryVectors[ri])
+	m := &retryModels[ri]
+	switch {
+	case r.retryPanic != "":
+		return "retry-parse:panic", what + "does not panic", "panic: " + r.retryPanic
+	case r.retryErr != nil && ri == retryInvalid:
+		return "", "", ""
+	case r.retryErr != nil:
+		// refused: nothing may have changed
+		switch {
+		case !sameStrings(r.args0, r.args2):
+			return "retry-parse:refused-but-changed:Args", what + fmt.Sprintf("is refused and leaves Args()=%q", r.args0), fmt.Sprintf("Args()=%q", r.args2)
+		case r.usage0 != r.usage2:
+			return "retry-parse:refused-but-changed:ShowUsage", what + fmt.Sprintf("is refused and leaves ShowUsage()=%v", r.usage0), fmt.Sprintf("ShowUsage()=%v", r.usage2)
+		}
+		if f := diffCfg(&r.cfg0, &r.cfg2); f != "" {
+			return "retry-parse:refused-but-changed:" + f, what + "is refused and leaves cfg=" + showCfg(&r.cfg0), "cfg=" + showCfg(&r.cfg2)
+		}
+		return "", "", ""
+	case m.class != "":
+		return "retry-parse:accepted-bad:" + m.class, what + "returns an error (" + m.class + ")", "nil"
+	case !sameStrings(m.args, r.args2):
+		return "retry-parse:args-differ", what + fmt.Sprintf("= nil with Args()=%q", m.args), fmt.Sprintf("Args()=%q", r.args2)
+	case m.usage != r.usage2:
+		return "retry-parse:usage-differ", what + fmt.Sprintf("= nil with ShowUsage()=%v", m.usage), fmt.Sprintf("ShowUsage()=%v", r.usage2)
+	}
+	if f := diffCfg(&m.cfg, &r.cfg2); f != "" {
+		return "retry-parse:field-differ:" + f, what + "= nil with cfg=" + showCfg(&m.cfg) + " (nothing of the rejected vector survives)", "cfg=" + showCfg(&r.cfg2)
 	}
 	return "", "", ""
 }
@@ -393,6 +482,8 @@ func (mon) Level(string) (string, string) {
 		"Exhaustive: every vector of length <= 5 (quick) / <= 6 (thorough, 17.9M) over the 16-token alphabet of DESIGN.md C10, plus every vector of length <= 3 (quick) / <= 4 (thorough) with one -config form (=valid file, =missing file, =invalid JSON, =empty, separate-token valid) inserted at every position; plus every vector of length <= 4 (quick) / <= 5 (thorough) over a second 16-token alphabet that mixes the long-named flags in all spellings (-n=v, --n=v, -n v, bare bool, '=' inside the value, near-miss names) with 7 tokens of the first; " +
 		"random: seeded vectors of <= 12 tokens from well-formed flags of all 13 flags (9 types, long names) in all 4 spellings, near-misses, repeated flags, bool+stray value, unknown names, flag-like values and arbitrary byte strings (quick 1e6, thorough 1e7). " +
 		"After every accepted Parse a second Parse is called on the same FlagSet: when it is refused, Args(), ShowUsage() and the fields must be those of the first call. " +
+		"After every Parse that returned an error, Parse is called again with one of 4 fixed vectors (3 valid, 1 invalid): refused = no panic and nothing changed; accepted = exactly the result of that vector alone on a fresh struct. " +
+		"Both tiers also run near-miss names: for every defined flag name N of Cfg and of the structs 'case' and 'names' 29 derived names (no-N, no_N, noN, with-N, enable-N, disable-N, N-, N_, N., N=, N1, -N, upper/lower/title-cased N, '-'/'_' swapped, truncated, doubled, blank-padded) bare, with =value, with a separate value, with 1 and 2 dashes, alone / behind a valid flag / followed by a tail. " +
 		"Both tiers also run: a struct with case-sensitive tag names (n/N, Port, dbHost, X, untagged fields; exhaustive length <= 3 over 16 tokens + 5000 random vectors) and the entry point FromCommandLine with os.Args set in the shard's process (every vector of length <= 3 over the first and <= 2 over the second alphabet + 2e4 (quick) / 4e5 (thorough) random vectors, vectors mentioning help left out), judged by the same reference parser. " +
 		"Thorough only: (a) exhaustive sweeps of length <= 5 over four further alphabets for Cfg - 'ints' (24 tokens: unsigned flags with negative / >2^63 / hex / octal / underscore values, +5, ' 5', '5 ', values in the next token), 'forms' (24: float, duration, bool, base64 text forms valid and invalid, so that repeated flags occur invalid-then-valid and valid-then-invalid), 'edges' (24: '--', '-', the empty token, '=' at every position, control bytes, invalid UTF-8), 'config' (20: -config in every spelling and position, repeated, missing file, invalid JSON, empty, value in the next token); " +
 		"(b) two further structs built with reflect.StructOf from the same table as the model's flag set: 'names' (40 flags nested up to 5 levels: names that are prefixes of each other, differ only in case or in '-'/'_'/'.', neighbours of help/config, names like 5, 1, x-, a b, c,d, untagged fields; exhaustive length <= 4 over 32 tokens + 3e6 random vectors) and 'wide' (120 flags w0..w119 of all 9 types nested up to 6 levels; exhaustive length <= 4 over 16 tokens + 1.5e6 random vectors of <= 24 tokens); " +
@@ -447,6 +538,10 @@ func (mon) Plan(prop, tier string, seed int64) []drv.Shard {
 	out = append(out, drv.Shard{Name: "case-0", Args: a})
 	a, _ = json.Marshal(shardArgs{Kind: "fcl", Layout: "fcl", Count: nfcl, Parts: 1})
 	out = append(out, drv.Shard{Name: "fcl-0", Args: a})
+	for _, l := range []string{"", "case", "names"} {
+		a, _ = json.Marshal(shardArgs{Kind: "nearmiss", Layout: l, Parts: 1})
+		out = append(out, drv.Shard{Name: "nearmiss-" + map[string]string{"": "cfg"}[l] + l, Args: a})
+	}
 	if tier != "thorough" {
 		return out
 	}
@@ -582,6 +677,9 @@ func (rn *runner) exec(tokens []string) bool {
 		rn.sum["model_reject_"+cl]++
 	}
 	rn.sum["stop_"+o.stop]++
+	if o.class != "" && rn.lay != layoutFCL {
+		rn.sum["retry_after_error"]++
+	}
 	if o.nflags > 0 || o.stop == "error" {
 		rn.c.DistinctStr(strings.Join(tokens[:o.consumed], "\x00") + "\x00" + o.stop)
 		sk := o.stop + "/" + o.class
@@ -674,6 +772,12 @@ func (mn mon) Run(sh drv.Shard, c *drv.Ctx) {
 		}
 	case "fcl":
 		runFCLShard(rn, sh.Seed, a.Count)
+	case "nearmiss":
+		if rn.lay != nil {
+			runNearMiss(rn, rn.lay.names, rn.lay.kinds)
+		} else {
+			runNearMiss(rn, flagNames[:], flagKinds[:])
+		}
 	case "exh":
 		runExhaustive(rn, a)
 	case "rand":
@@ -726,6 +830,9 @@ func (mon) Finish(prop, tier string, mg *drv.Merged) (inc []string) {
 		if mg.Sum[k] == 0 {
 			inc = append(inc, "no vector of class "+k+" was evaluated")
 		}
+	}
+	if mg.Sum["nearmiss_vectors"] == 0 || mg.Sum["retry_after_error"] == 0 {
+		inc = append(inc, "no near-miss name vector or no retry after a failed Parse was evaluated")
 	}
 	for _, t := range []string{"case", "fcl"} {
 		if mg.Sum["cases_"+t] == 0 || mg.Sum["accepted_"+t] == 0 {
